@@ -46,7 +46,8 @@ func convertDelta(b []byte) (deltams int32, err error) {
 	// the whole field must be a decimal number (fmt.Sscanf would take the leading digits
 	// and ignore what follows, e.g. "12x" or "1.5", and skip white space in front)
 	n, err := strconv.ParseInt(string(b), 10, 32)
-	if err != nil {
+	// a plus sign is never written ("%d"): a field that starts with one is damaged
+	if err != nil || (len(b) > 0 && b[0] == '+') {
 		return -1, fmt.Errorf("invalid time stamp %q", string(b))
 	}
 
